@@ -80,14 +80,14 @@ static std::shared_ptr<M> pattern_ord(int r, int c, unsigned long mask, const st
 template <class View> bool spmv_if(const View &V, const M &, const std::vector<double> &x, std::vector<double> &y, std::true_type) { backend::spmv(1.0, V, x, 0.0, y); return true; }
 template <class View> bool spmv_if(const View &, const M &C, const std::vector<double> &x, std::vector<double> &y, std::false_type) { backend::spmv(1.0, C, x, 0.0, y); return false; }
 template <class View>
-void rec_view(const char *ad, const char *it, const char *tag, const M &A, const View &V, const std::string &extra = "") {
+void rec_view(const char *ad, const char *it, const char *tag, const M &A, const View &V, const std::string &extra = "", int shift = 0) {
     vr::obj o; o.str("k", "view").str("ad", ad).str("it", it).str("tag", tag);
     try {
         size_t n = backend::rows(V), m = backend::cols(V);
         o.i("rows", n).i("cols", m).i("nnz", backend::nonzeros(V));
         std::vector<long long> ptr(1, 0), col; std::vector<double> val;
         for (size_t i = 0; i < n; ++i) { for (auto a = backend::row_begin(V, i); a; ++a) { col.push_back((long long)a.col()); val.push_back((double)a.value()); } ptr.push_back((long long)col.size()); }
-        vr::obj q; q.i("n", n).i("m", m).ints("ptr", ptr).ints("col", col).dbls("val", val); if (!q.exact) o.exact = false;
+        vr::obj q; q.i("n", n).i("m", m).ints("ptr", ptr).ints("col", col).dbls("val", val, shift); if (!q.exact) o.exact = false;
         M C(V);
         bool same = C.nrows == n && C.ncols == m && (size_t)C.ptr[n] == col.size();
         for (size_t i = 0; same && i <= n; ++i) same = C.ptr[i] == ptr[i];
@@ -95,7 +95,7 @@ void rec_view(const char *ad, const char *it, const char *tag, const M &A, const
         std::vector<double> x(m), y(n, std::numeric_limits<double>::quiet_NaN());
         for (size_t j = 0; j < m; ++j) x[j] = (double)((j * 7 + 3) % 5) - 2;
         bool direct = spmv_if(V, C, x, y, std::integral_constant<bool, backend::detail::use_builtin_matrix_ops<View>::value>());
-        o.raw("A", J(A, o)).raw("out", q.done()).b("ctor_same", same).b("spmv_direct", direct).dbls("x", x).dbls("y", y);
+        o.raw("A", J(A, o)).raw("out", q.done()).b("ctor_same", same).b("spmv_direct", direct).dbls("x", x).dbls("y", y, shift);
     } catch (const std::exception &e) { o.str("exc", e.what()); }
     std::string s = o.done();
     if (!extra.empty()) s = s.substr(0, s.size() - 1) + "," + extra + "}";
@@ -227,6 +227,26 @@ static void v_scaled(const M &A, vr::rng &g, const char *tag) {
     rec_view("scaled_matrix", "given scale", tag, A, adapter::scaled_matrix<decltype(T), std::vector<double>>(T, s), e.str());
 }
 
+// scale_diagonal (s_i = 1/sqrt|a_ii|) on a matrix whose diagonal entries are powers of 4 (so that s is 1, 1/2, 1/4 and
+// S A S is exact in sixteenths) and whose row entries are listed in the given (possibly shuffled) order
+static void v_scale_diag(const M &A0, vr::rng &g, const char *tag) {
+    size_t n = A0.nrows; M A(A0);
+    for (size_t i = 0; i < n; ++i) { bool has = false; for (ptrdiff_t p = A.ptr[i]; p < A.ptr[i+1]; ++p) if (A.col[p] == (ptrdiff_t)i) { A.val[p] = (g.coin() ? 1.0 : -1.0) * std::ldexp(1.0, 2 * g.range(0, 2)); has = true; }
+        if (!has) return; }                                  // scale_diagonal is defined for matrices with a full diagonal
+    std::vector<ptrdiff_t> ptr(A.ptr, A.ptr + n + 1), col(A.col, A.col + A.nnz); std::vector<double> val(A.val, A.val + A.nnz);
+    auto T = std::tie(n, ptr, col, val);
+    auto scale = adapter::scale_diagonal< backend::builtin<double> >(T);
+    std::ostringstream e; e << "\"s\":["; bool ex = true;
+    for (size_t i = 0; i < n; ++i) { double q = 4 * (*scale.s)[i]; if (!vr::small_int(q)) ex = false; e << (i ? "," : "") << (long long)q; } e << "],\"shift\":4";
+    // vectors: rhs() pre-scales a copy, operator() post-scales in place
+    std::vector<double> f(n), x(n); for (size_t i = 0; i < n; ++i) { f[i] = (double)(i % 5) - 2; x[i] = f[i]; }
+    auto sf = scale.rhs(f); scale(x);
+    e << ",\"vx\":["; for (size_t i = 0; i < n; ++i) e << (i ? "," : "") << (long long)f[i];
+    e << "],\"vs\":["; for (size_t i = 0; i < n; ++i) { if (!vr::small_int(4 * (*sf)[i]) || (*sf)[i] != x[i]) ex = false; e << (i ? "," : "") << (long long)(4 * x[i]); } e << "]";
+    if (!ex) { vr::obj o; o.str("k", "view").str("ad", "scaled_matrix").str("it", "scale_diagonal").str("tag", tag).str("exc", "scale_diagonal produced a non-dyadic / non-finite scale or rhs() != operator()"); vr::emit(o.done()); return; }
+    rec_view("scaled_matrix", "scale_diagonal", tag, A, scale.matrix(T), e.str(), 4);
+}
+
 // ---- block adapter (sorted rows only: its documentation requires them), b = 2, 3; the block CRS it produces
 template <int B> void v_block(const M &A, const char *tag) {
     typedef static_matrix<double, B, B> Blk;
@@ -270,6 +290,7 @@ static void all_views(const M &A, vr::rng &g, int rot, const char *tag, bool eve
         if (on(1)) v_builder(A, tag);
         if (on(2)) v_ublas(A, tag);
         if (on(3)) v_scaled(A, g, tag);
+        if (on(3) || on(0)) v_scale_diag(A, g, tag);
         if (on(4) || on(5)) {
             std::vector<ptrdiff_t> id(A.nrows); for (size_t i = 0; i < A.nrows; ++i) id[i] = i;
             v_reorder(A, nth_perm(id, A.nrows <= 8 ? g.below((int)fact((int)A.nrows)) : 0), tag);
@@ -316,6 +337,7 @@ static void mode_random(uint64_t seed, int reps) {
         int n = g.range(1, vr::thorough() ? 60 : 36); bool sq = g.coin(0.7); int m = sq ? n : g.range(1, 36);
         auto A = vr::random_int(g, n, m, 0.1 + 0.3 * g.unit(), 3, g.coin(0.7));
         all_views(*A, g, r, "rand", r % 3 == 0);
+        { int nd = g.range(2, 30); auto D = vr::random_int(g, nd, nd, 0.1 + 0.3 * g.unit(), 3, true, true); v_scale_diag(*D, g, "rand"); }
         int nb = g.range(1, 10), mb = g.range(1, 10);
         { auto S = vr::random_int(g, nb * 2, mb * 2, 0.1 + 0.4 * g.unit(), 5, false); v_block<2>(*S, "rand"); }
         { auto S = vr::random_int(g, nb * 3, mb * 3, 0.1 + 0.3 * g.unit(), 5, false); v_block<3>(*S, "rand"); }
